@@ -19,7 +19,7 @@ def run(ctx, br):
     touts = [500, 1000, 2000, 5000, 20000, 50000, 300000] if quick else [300, 500, 999, 1000, 2000, 5000, 20000, 50000, 200000]
     reqs = []
     for t in touts:
-        for tr, stalls in (("adapter", ["silent", "late", "write", "flush"]), ("nats", ["silent", "late", "link"]), ("http", ["silent", "late", "body", "midbody"])):
+        for tr, stalls in (("adapter", ["silent", "late", "write", "flush", "closing"]), ("nats", ["silent", "late", "link"]), ("http", ["silent", "late", "body", "midbody"])):
             for st in stalls:
                 for oneway in ([False, True] if st in ("write", "flush") else [False]):
                     reps = 1 if quick else 3
@@ -83,7 +83,7 @@ def run(ctx, br):
     cov["worst_overshoot_us"] = worst
     cov["allowance_us"] = ALLOW_US
     cov["rule"] = ("(1) " + cov["rule"] + " (2) wall clock: Request/Oneway on adapter / NATS (embedded server) / HTTP (httptest) against "
-                   "peers that are silent, late by d, whose Write / Flush block, or (HTTP) that send the response headers and stall before or inside the body; timeouts %s us; the call must return no later than "
+                   "peers that are silent, late by d, whose Write / Flush block, a transport whose Close is stalled by another goroutine meanwhile, or (HTTP) that send the response headers and stall before or inside the body; timeouts %s us; the call must return no later than "
                    "timeout + %d us, report TIMED_OUT, and leave the registry empty" % (touts, ALLOW_US))
     ctx.assumptions.append("wall-clock punctuality (Go timers, scheduler, net/http and nats.go honouring contexts) is measured, not proved")
     return cov
